@@ -13,7 +13,7 @@ ID = "C13"
 TITLE = "Compiled constraint functions enforce exactly the stated relation"
 PROPS_FILE = "Props/Properties_C13.v"
 LEVEL = "proof"
-SIZES = {"quick": 2400, "thorough": 40000}
+SIZES = {"quick": 2400, "thorough": 30000}
 PARALLEL = True
 SHARD = 400
 RULE = ("cases: isolated-form texts of 1-3 lines (classes single / nofeed / neqcombo / feed / error) over 2-14 variables "
@@ -22,7 +22,7 @@ RULE = ("cases: isolated-form texts of 1-3 lines (classes single / nofeed / neqc
         "points on dyadic grids, random floats, tiny and huge magnitudes, with the left variable placed exactly on the "
         "boundary, one ulp beside it, inside the tol sliver, exactly at / one ulp around f+-tol(f); tol/rel default or "
         "overridden through locals (0, dyadic, negative); bounds cases (symbolic_bounds text, boundsconstrain symbolic "
-        "and impose_bounds variants) with None/inf entries, degenerate boxes, points on the bounds; non-trivial = the "
+        "and impose_bounds variants) with None/inf entries, degenerate boxes, points on the bounds; plus, on every run, a deterministic sweep comparator x 13 boundary placements x 3 magnitudes of `x0 cmp x1'; non-trivial = the "
         "output differs from the input or a boundary placement was used; distinct = distinct case JSON")
 TRUSTED = ["real-number axioms of Coq's standard library (theorems are stated over the NumR instance of the model)",
            "the harness prints one expression tree both as mystic text and as a Gallina term (harness/props/c13_ast.py)",
@@ -33,7 +33,10 @@ ASSUMPTIONS = ["IEEE rounding: the theorems are over the reals; that f-tol(f) < 
                "sympy's simplify (used inside boundsconstrain(symbolic=True)) is not modelled: only its effect of printing "
                "bounds with 15 significant digits is reproduced by the harness when it feeds the model",
                "the text -> tree direction (mystic's string replacement of variable names) is validated by the "
-               "correspondence on generated texts, not proved"]
+               "correspondence on generated texts, not proved",
+               "the correspondence pins the exact output vector, hence also the constants the property leaves free (the size "
+               "1.1*tol(f) of the `!=' nudge, clamping onto f-+tol(f)): changing them is reported as model drift "
+               "(no-failing-input-found), not as a property violation"]
 META = dict(
     technique="Coq proof over a Gallina model of the compiled assignment statements + bit-exact model/implementation correspondence (vm_compute, binary64)",
     level_text=("For every right-hand-side function independent of x_i, every comparator and every vector: the relation holds after "
@@ -120,7 +123,9 @@ def _gen_sys(rng, tier):
     tol, rel = A.tolrel(tl)
     for attempt in range(20):
         lines = _gen_lines(rng, cls, nv, locs)
-        x = A.gen_point(rng, nv, None if attempt < 10 else "grid")
+        # chains that feed one another / collide are kept away from overflow (inf - inf = nan is out of scope)
+        pmode = rng.choice(["grid", "grid", "int", "float", "tiny"]) if cls in ("feed", "neqcombo") else None
+        x = A.gen_point(rng, nv, pmode if attempt < 10 else "grid")
         places = []
         if cls in ("single", "nofeed", "neqcombo"):
             ok = True
@@ -213,6 +218,13 @@ def generate(rng, n, tier):
     yield dict(kind="sys", cls="single", scheme={"type": "x"}, nv=2, lines=[dict(lhs=0, cmp=">", rhs=["v", 1], eqeq=False)],
                locals={}, tl=None, x=[5e-16, 0.0], nvars=None, fmt=[0], places=["sliver-above"])
     yield dict(kind="bounds", variant="symbolic", lo=[0.1 + 0.2], hi=[0.7], x=[0.0])
+    # deterministic boundary sweep (every run, every seed): each comparator x each placement of x0 around f = x1
+    for c in A.CMPS:
+        for mode in A.PLACEMENTS[1:]:
+            for f in (0.0, 3.0, -1e+20):
+                v = A.place(rng, mode, f, 1e-15, 1e-15)
+                yield dict(kind="sys", cls="single", scheme={"type": "x"}, nv=2, lines=[dict(lhs=0, cmp=c, rhs=["v", 1], eqeq=False)],
+                           locals={}, tl=None, x=[v, f], nvars=None, fmt=[0], places=[mode])
     for i in range(n):
         r = rng.random()
         if i < nsym:
@@ -261,7 +273,9 @@ def run_impl(case):
         try:
             if case["variant"] == "symbolic":
                 from mystic.constraints import boundsconstrain
-                c = boundsconstrain(lo, hi)
+                import io, contextlib
+                with contextlib.redirect_stdout(io.StringIO()):     # sympy path prints "'=' is not an equation!"
+                    c = boundsconstrain(lo, hi)
             elif case["variant"] == "impose":
                 from mystic.constraints import boundsconstrain
                 c = boundsconstrain(lo, hi, symbolic=False)
@@ -334,10 +348,14 @@ def oracle(case, obs):
     out = []
     exp_err = _expected_error(case)
     if "error" in obs or exp_err:
-        if obs.get("error") == "ZeroDivisionError" and exp_err is None and case["kind"] == "bounds" and _degenerate(case):
+        if obs.get("error") == "ZeroDivisionError" and case["kind"] == "bounds" and _degenerate(case):
             return [_fail("bounds_clip_into_box", SITE_BOUNDS, PAT_DEGEN,
                           dict(lo=case["lo"], hi=case["hi"], error=obs.get("error"), msg=obs.get("msg"),
                                note="min[i] == max[i] for the only bounded variable(s): symbolic.simplify raises"))]
+        if exp_err == "IndexError" and "error" not in obs and case["kind"] == "bounds" and _degenerate(case):
+            # the lines of the missing coordinate were dropped by simplify: nothing indexes it any more
+            return [_fail("bounds_clip_into_box", SITE_BOUNDS, PAT_DEGEN,
+                          dict(lo=case["lo"], hi=case["hi"], x=case["x"], note="degenerate interval dropped: no IndexError on a short vector"))]
         if obs.get("error") != exp_err:
             out.append(_fail("errors", "symbolic.generate_solvers" if case["kind"] == "sys" else "constraints.boundsconstrain",
                              "unexpected-outcome", dict(expected=exp_err, got=obs.get("error"), msg=obs.get("msg"))))
